@@ -494,6 +494,311 @@ Section Spans.
             - constructor; [|constructor]. eapply dok_widen; [exact H0|apply pos_le_refl|exact Hqv]. }
           intros od. destruct od as [d|]; [apply IHvec|apply Jd_err].
     Qed.
+
+    (* ================= nesting and sibling order =================
+       The elements a list or vector hands out lie one after another inside
+       the span of the list or vector itself. *)
+    Lemma Jd_and {A} (m : PM A) p q : Jd m p -> Jd m q -> Jd m (fun lo a hi => p lo a hi /\ q lo a hi).
+    Proof.
+      intros Hp Hq s Hi. specialize (Hp s Hi). specialize (Hq s Hi). destruct (m s) as [[a|e] s1]; [|exact I].
+      destruct Hp as (A1 & A2 & A3). destruct Hq as (_ & _ & B3). auto.
+    Qed.
+
+    Definition root_start (i : span_info) : N * N := sp_start (info_span i).
+    Definition root_end (i : span_info) : N * N := sp_end (info_span i).
+
+    (* the root spans of [l] follow each other between lo and hi *)
+    Fixpoint seqb (lo hi : N * N) (l : list span_info) : Prop :=
+      match l with
+      | [] => pos_le lo hi
+      | i :: l' => pos_le lo (root_start i) /\ pos_le (root_start i) (root_end i) /\ seqb (root_end i) hi l'
+      end.
+
+    Lemma seqb_le lo hi l : seqb lo hi l -> pos_le lo hi.
+    Proof.
+      revert lo. induction l as [|i l IH]; intros lo; cbn [seqb]; [auto|]. intros (H1 & H2 & H3).
+      eapply pos_le_trans; [exact H1|]. eapply pos_le_trans; [exact H2|]. apply IH. exact H3.
+    Qed.
+    Lemma seqb_widen lo hi lo' hi' l : pos_le lo' lo -> pos_le hi hi' -> seqb lo hi l -> seqb lo' hi' l.
+    Proof.
+      revert lo lo'. induction l as [|i l IH]; intros lo lo' H1 H2; cbn [seqb].
+      - intros H. eapply pos_le_trans; [exact H1|]. eapply pos_le_trans; [exact H|exact H2].
+      - intros (A & B & C). split; [eapply pos_le_trans; eauto|]. split; [exact B|]. eapply IH; [apply pos_le_refl|exact H2|exact C].
+    Qed.
+    Lemma seqb_app lo mid hi l1 l2 : seqb lo mid l1 -> seqb mid hi l2 -> seqb lo hi (l1 ++ l2).
+    Proof.
+      revert lo. induction l1 as [|i l1 IH]; intros lo; cbn [seqb app].
+      - intros H1 H2. eapply seqb_widen; [exact H1|apply pos_le_refl|exact H2].
+      - intros (A & B & C) H2. split; [exact A|]. split; [exact B|]. apply IH; assumption.
+    Qed.
+    Lemma seqb_snoc lo mid hi l i : seqb lo mid l -> pos_le mid (root_start i) -> pos_le (root_start i) (root_end i) ->
+      pos_le (root_end i) hi -> seqb lo hi (l ++ [i]).
+    Proof. intros H1 H2 H3 H4. eapply seqb_app; [exact H1|]. cbn [seqb]. auto. Qed.
+    (* the last element may be replaced by what lies inside it, or dropped *)
+    Lemma seqb_expand lo hi l i cs : seqb lo hi (l ++ [i]) -> seqb (root_start i) (root_end i) cs -> seqb lo hi (l ++ cs).
+    Proof.
+      revert lo. induction l as [|x l IH]; intros lo; cbn [seqb app].
+      - intros (A & B & C) H. eapply seqb_widen; [exact A|exact C|exact H].
+      - intros (A & B & C) H. split; [exact A|]. split; [exact B|]. apply IH; assumption.
+    Qed.
+    Lemma seqb_drop_last lo hi l i : seqb lo hi (l ++ [i]) -> seqb lo hi l.
+    Proof.
+      revert lo. induction l as [|x l IH]; intros lo; cbn [seqb app].
+      - intros H. apply (seqb_le lo hi [i]). exact H.
+      - intros (A & B & C). split; [exact A|]. split; [exact B|]. apply IH. exact C.
+    Qed.
+
+    (* what seqb says, element by element *)
+    Lemma seqb_inside lo hi l i : seqb lo hi l -> In i l ->
+      pos_le lo (root_start i) /\ pos_le (root_start i) (root_end i) /\ pos_le (root_end i) hi.
+    Proof.
+      revert lo. induction l as [|x l IH]; intros lo; cbn [seqb In]; [tauto|]. intros (A & B & C) [->|Hin].
+      - repeat split; auto. apply (seqb_le _ _ _ C).
+      - destruct (IH _ C Hin) as (P1 & P2 & P3). repeat split; auto.
+        eapply pos_le_trans; [exact A|]. eapply pos_le_trans; [exact B|exact P1].
+    Qed.
+    Lemma seqb_adjacent lo hi l1 x y l2 : seqb lo hi (l1 ++ x :: y :: l2) -> pos_le (root_end x) (root_start y).
+    Proof.
+      revert lo. induction l1 as [|z l1 IH]; intros lo; cbn [seqb app].
+      - intros (_ & _ & (A & _)). exact A.
+      - intros (_ & _ & C). exact (IH _ C).
+    Qed.
+
+    (* what a list iterator can hand out after the first element: the cars of
+       the chain and, when it carries a span of its own, the final tail *)
+    Fixpoint elems_tail (i : span_info) : list span_info :=
+      match i with
+      | SCons _ a d => a :: elems_tail d
+      | SPrim sp => if fst (sp_start sp) =? 0 then [] else [i]
+      | SVec _ _ => [i]
+      end.
+
+    Fixpoint tight (i : span_info) : Prop :=
+      match i with
+      | SPrim _ => True
+      | SCons sp a d => (fst (sp_start sp) = 0 \/ seqb (sp_start sp) (sp_end sp) (a :: elems_tail d)) /\ tight a /\ tight d
+      | SVec sp l => seqb (sp_start sp) (sp_end sp) l /\
+                     (fix all (l : list span_info) : Prop := match l with [] => True | x :: l' => tight x /\ all l' end) l
+      end.
+    Definition all_tight : list span_info -> Prop :=
+      fix all (l : list span_info) : Prop := match l with [] => True | x :: l' => tight x /\ all l' end.
+
+    Lemma elems_tail_chain ms tm : elems_tail (chain_meta ms tm) = ms ++ elems_tail tm.
+    Proof. induction ms as [|m ms IH]; cbn [chain_meta elems_tail app]; [reflexivity|]. now rewrite IH. Qed.
+    Lemma tight_chain ms tm : all_tight ms -> tight tm -> tight (chain_meta ms tm).
+    Proof.
+      induction ms as [|m ms IH]; cbn [chain_meta all_tight tight]; [auto|]. intros [Hm Hms] Ht.
+      split; [left; reflexivity|]. split; [exact Hm|apply IH; assumption].
+    Qed.
+    Lemma all_tight_map ds : Forall (fun d => tight (dinfo d)) ds -> all_tight (map dinfo ds).
+    Proof. induction 1 as [|d ds Hd _ IH]; cbn [map all_tight]; auto. Qed.
+
+    Lemma prefix_line l c : prefix_pos W l c -> 1 <= l.
+    Proof.
+      intros (p & q & _ & E). assert (H : pos_le (1, 0) (pos_after p)) by exact (fold_advance_le p (1, 0)).
+      rewrite <- E in H. unfold pos_le in H. cbn [fst snd] in H. lia.
+    Qed.
+    Lemma real_line lo hi sp : real lo hi sp -> (fst (sp_start sp) =? 0) = false.
+    Proof. intros (A & _). apply prefix_line in A. lia. Qed.
+
+    (* the elements of a tail, given that it is tight and has a real span *)
+    Lemma tail_elems lo hi l t : real lo hi (info_span t) -> tight t -> seqb lo hi (l ++ [t]) -> seqb lo hi (l ++ elems_tail t).
+    Proof.
+      intros Hr Ht Hs. destruct t as [sp|sp a d|sp ms]; cbn [elems_tail info_span] in *.
+      - rewrite (real_line lo hi sp Hr). exact Hs.
+      - destruct Ht as ([H0|Hseq] & _ & _); [pose proof (real_line lo hi sp Hr); lia|].
+        eapply seqb_expand; [exact Hs|exact Hseq].
+      - exact Hs.
+    Qed.
+
+    Definition tail_infos (o : option datum) : list span_info := match o with Some t => [dinfo t] | None => [] end.
+
+    Lemma list_datum_tight lo hi ds tail a b :
+      Forall (fun d => tight (dinfo d)) ds -> (match tail with Some t => tight (dinfo t) /\ dok lo hi t | None => True end) ->
+      seqb a b (map dinfo ds ++ tail_infos tail) -> tight (dinfo (list_datum (ds, tail) a b)).
+    Proof.
+      intros Hds Ht Hs. destruct ds as [|d1 ds]; [exact I|].
+      inversion Hds as [|? ? H1 Hrest]; subst. unfold list_datum, list_meta. cbn [dinfo tight mk_span sp_start sp_end].
+      split; [right|split; [exact H1|]].
+      - rewrite elems_tail_chain. cbn [map app] in Hs.
+        change (dinfo d1 :: map dinfo ds ++ elems_tail (match tail with Some t => dinfo t | None => null_meta end))
+          with ((dinfo d1 :: map dinfo ds) ++ elems_tail (match tail with Some t => dinfo t | None => null_meta end)).
+        destruct tail as [t|]; cbn [tail_infos] in Hs.
+        + destruct Ht as [Htt [_ Hr]].
+          apply (tail_elems a b (dinfo d1 :: map dinfo ds) (dinfo t)); auto.
+          pose proof (seqb_le _ _ _ Hs) as Hab. destruct Hr as (R1 & R2 & R3 & R4 & R5).
+          assert (Hmid : seqb a b ((dinfo d1 :: map dinfo ds) ++ [dinfo t])) by exact Hs.
+          (* the root of t lies between a and b *)
+          clear -Hmid R1 R2 R4. revert Hmid. generalize (dinfo d1 :: map dinfo ds). intros l. revert a.
+          induction l as [|x l IH]; intros a; cbn [seqb app].
+          * intros (A & B & C). repeat split; auto.
+          * intros (A & B & C). destruct (IH _ C) as (Q1 & Q2 & Q3 & Q4 & Q5). repeat split; auto.
+            eapply pos_le_trans; [exact A|]. eapply pos_le_trans; [exact B|exact Q3].
+        + cbn [null_meta elems_tail span_empty sp_start fst]. rewrite app_nil_r in *. exact Hs.
+      - apply tight_chain; [apply all_tight_map; exact Hrest|]. destruct tail as [t|]; [apply Ht|exact I].
+    Qed.
+
+    Lemma vector_tight els a b : Forall (fun d => tight (dinfo d)) els -> seqb a b (map dinfo els) ->
+      tight (SVec (mk_span a b) (map dinfo els)).
+    Proof. intros H Hs. cbn [tight mk_span sp_start sp_end]. split; [exact Hs|apply all_tight_map; exact H]. Qed.
+
+    Lemma quotation_tight hi name quoted s0 s1 : dok s1 hi quoted -> tight (dinfo quoted) -> pos_le s0 s1 ->
+      tight (dinfo (quotation_datum name quoted (mk_span s0 s1))).
+    Proof.
+      intros [_ (Q1 & Q2 & Q3 & Q4 & Q5)] Ht L. unfold quotation_datum. cbv zeta.
+      set (qi := dinfo quoted) in *. set (qend := sp_end (info_span qi)) in *.
+      cbn [dinfo tight mk_span sp_start sp_end elems_tail info_span root_start root_end].
+      assert (Htail : forall lo, pos_le lo qend -> seqb lo qend (if fst qend =? 0 then [] else [SPrim (mk_span qend qend)])).
+      { intros lo Hlo. destruct (fst qend =? 0); cbn [seqb root_start root_end info_span mk_span sp_start sp_end]; auto.
+        repeat split; auto; apply pos_le_refl. }
+      split; [right|split; [exact I|split; [right|split; [exact Ht|exact I]]]].
+      - cbn [seqb root_start root_end info_span mk_span sp_start sp_end]. repeat split; try apply pos_le_refl; auto.
+        apply Htail. apply pos_le_refl.
+      - cbn [seqb root_start root_end]. repeat split; try apply pos_le_refl; auto. apply Htail. apply pos_le_refl.
+    Qed.
+
+    Definition qt (lo : N * N) (o : option datum) (hi : N * N) : Prop :=
+      match o with Some d => tight (dinfo d) | None => True end.
+    Definition qlt (acc : list datum) (lo : N * N) (res : list datum * option datum) (hi : N * N) : Prop :=
+      forall lo0, seqb lo0 lo (map dinfo acc) -> Forall (fun d => tight (dinfo d)) acc ->
+        seqb lo0 hi (map dinfo (fst res) ++ tail_infos (snd res)) /\ Forall (fun d => tight (dinfo d)) (fst res) /\
+        match snd res with Some t => tight (dinfo t) /\ exists l h, dok l h t | None => True end.
+    Definition qvect (acc : list datum) (lo : N * N) (res : list datum) (hi : N * N) : Prop :=
+      forall lo0, seqb lo0 lo (map dinfo acc) -> Forall (fun d => tight (dinfo d)) acc ->
+        seqb lo0 hi (map dinfo res) /\ Forall (fun d => tight (dinfo d)) res.
+
+    Lemma mono_qt : mono_lo qt.
+    Proof. intros lo lo' o hi _ H. exact H. Qed.
+    Lemma mono_qlt acc : mono_lo (qlt acc).
+    Proof. intros lo lo' res hi H Hq lo0 Hs Ht. apply Hq; [|exact Ht]. eapply seqb_widen; [apply pos_le_refl|exact H|exact Hs]. Qed.
+    Lemma mono_qvect acc : mono_lo (qvect acc).
+    Proof. intros lo lo' res hi H Hq lo0 Hs Ht. apply Hq; [|exact Ht]. eapply seqb_widen; [apply pos_le_refl|exact H|exact Hs]. Qed.
+
+    Lemma Jd_prim_t v start : Jd (pbind (liftR position) (fun e => pret (Some (prim_datum v start e)))) (from_start start qt).
+    Proof. apply Jd_after_pos. intros e. apply Jd_ret. intros lo -> He Hs Hps. exact I. Qed.
+
+    Lemma map_snoc {A B} (f : A -> B) l x : map f (l ++ [x]) = map f l ++ [f x].
+    Proof. rewrite map_app. reflexivity. Qed.
+
+    (* one more element read by next_datum between mid0 and mid *)
+    Lemma acc_step lo0 lo mid acc d : seqb lo0 lo (map dinfo acc) -> Forall (fun d => tight (dinfo d)) acc ->
+      dok lo mid d -> tight (dinfo d) ->
+      seqb lo0 mid (map dinfo (acc ++ [d])) /\ Forall (fun d => tight (dinfo d)) (acc ++ [d]).
+    Proof.
+      intros Hs Ht [_ (R1 & R2 & R3 & R4 & R5)] Htd. split.
+      - rewrite map_snoc. eapply seqb_snoc; [exact Hs|exact R3|exact R4|exact R5].
+      - apply Forall_app. split; [exact Ht|repeat constructor; exact Htd].
+    Qed.
+
+    Theorem datums_tight fuel :
+      Jd (next_datum fuel) qt /\
+      (forall t acc, Jd (parse_list_meta fuel t acc) (qlt acc)) /\
+      (forall t acc, Jd (parse_vector_meta fuel t acc) (qvect acc)).
+    Proof.
+      induction fuel as [|f (IHv & IHl & IHvec)].
+      - split; [|split]; intros; cbn [Parser.next_datum Parser.parse_list_meta Parser.parse_vector_meta]; apply Jd_fail.
+      - pose proof (datums_spans f) as (Sv & Sl & Svec).
+        assert (IHv2 := Jd_and _ _ _ Sv IHv).
+        split; [|split]; intros; cbn [Parser.next_datum Parser.parse_list_meta Parser.parse_vector_meta].
+        + apply Jd_after; [apply T_ws|apply mono_qt|]. intros o. destruct o as [b|]; [|apply Jd_ret; intros; exact I].
+          apply Jd_after_pos. intros start.
+          eapply Jd_weaken with (p := from_start start qt).
+          { intros lo a hi _ H -> Hp. apply H; [apply pos_le_refl|exact Hp]. }
+          apply Jd_after; [apply T_token|apply mono_from_start|]. intros tok. cbv zeta.
+          destruct tok; try apply Jd_prim_t.
+          * (* list *)
+            eapply (Jd_nest _ _ _ (fun lo l hi => ql [] lo l hi /\ qlt [] lo l hi)
+                      (fun l m2 b hi => hi = m2 /\ b = Some (list_datum l start m2)));
+              [apply Jd_and; [apply Sl|apply IHl]|apply T_end_seq| |].
+            { intros l. apply Jd_after_pos. intros e. apply Jd_ret. intros lo -> He. auto. }
+            intros lo lo1 l m1 m2 b0 hi L1 L2 L3 L4 [Hp1 Hp2] (-> & ->) Hs Hps. cbn [qt].
+            destruct (Hp1 lo1 (pos_le_refl _) (Forall_nil _)) as [Hels Htail].
+            destruct (Hp2 lo1 (pos_le_refl _) (Forall_nil _)) as (Hseq & Hts & Htt). destruct l as [ds tail]. cbn [fst snd] in *.
+            apply (list_datum_tight lo1 m1).
+            -- exact Hts.
+            -- destruct tail as [t|]; [split; [apply Htt|exact Htail]|exact I].
+            -- eapply seqb_widen; [|exact L3|exact Hseq]. eapply pos_le_trans; eauto.
+          * (* quotation *)
+            apply Jd_after_pos. intros token_end.
+            eapply (Jd_nest_quote _ _ (fun lo o hi => qv lo o hi /\ qt lo o hi)
+                      (fun o m1 b hi => match o with
+                                        | Some d => hi = m1 /\ b = Some (quotation_datum name d (mk_span start token_end))
+                                        | None => False end)); [exact IHv2| |].
+            { intros o. destruct o as [d|]; [apply Jd_ret; auto|apply Jd_err]. }
+            intros lo lo1 o m1 b0 hi L1 L2 L3 [Hp1 Hp2] Hq -> Hpt Hs Hps. destruct o as [d|]; [|contradiction].
+            destruct Hq as [-> ->]. cbn [qt qv] in *. apply (quotation_tight m1); auto.
+            eapply dok_widen; [exact L1|apply pos_le_refl|exact Hp1].
+          * (* vector *)
+            eapply (Jd_nest _ _ _ (fun lo l hi => qvec [] lo l hi /\ qvect [] lo l hi)
+                      (fun els m2 b hi => hi = m2 /\
+                         b = Some {| dvalue := Vector (map dvalue els); dinfo := SVec (mk_span start m2) (map dinfo els) |}));
+              [apply Jd_and; [apply Svec|apply IHvec]|apply T_end_seq| |].
+            { intros els. apply Jd_after_pos. intros e. apply Jd_ret. intros lo -> He. auto. }
+            intros lo lo1 els m1 m2 b0 hi L1 L2 L3 L4 [Hp1 Hp2] (-> & ->) Hs Hps. cbn [qt dinfo].
+            destruct (Hp2 lo1 (pos_le_refl _) (Forall_nil _)) as (Hseq & Hts).
+            apply vector_tight; [exact Hts|]. eapply seqb_widen; [|exact L3|exact Hseq]. eapply pos_le_trans; eauto.
+          * (* byte vector *)
+            apply Jd_after; [apply T_byte_list|apply mono_from_start|]. intros bs. apply Jd_prim_t.
+        + apply Jd_after; [apply T_ws|apply mono_qlt|]. intros o. destruct o as [c|]; [|apply Jd_err].
+          destruct (is_closer c).
+          { destruct (negb (c =? t)); [apply Jd_err|]. apply Jd_ret. intros lo lo0 Hs Ht. cbn [fst snd tail_infos].
+            rewrite app_nil_r. auto. }
+          destruct (c =? 46).
+          { apply Jd_after_pos. intros start.
+            set (P := fun lo (res : list datum * option datum) hi => pos_le start lo -> prefix_pos W (fst start) (snd start) ->
+                        forall lo0, seqb lo0 start (map dinfo acc) -> Forall (fun d => tight (dinfo d)) acc ->
+                          seqb lo0 hi (map dinfo (fst res) ++ tail_infos (snd res)) /\ Forall (fun d => tight (dinfo d)) (fst res) /\
+                          match snd res with Some t => tight (dinfo t) /\ exists l h, dok l h t | None => True end).
+            eapply Jd_weaken with (p := P).
+            { intros lo res hi _ H -> Hp. exact (H (pos_le_refl _) Hp). }
+            assert (Hmono : mono_lo P).
+            { intros lo lo' res hi H Hq H1. apply Hq. eapply pos_le_trans; [exact H1|exact H]. }
+            apply Jd_after; [apply T_eat_peek|exact Hmono|]. intros nx. destruct (lone_dot nx).
+            - destruct acc as [|x acc'].
+              + apply Jd_after; [apply T_peek|exact Hmono|]. intros o3. destruct o3; apply Jd_err.
+              + eapply Jd_weaken; [|apply (Jd_bind _ _ (fun lo o hi => qv lo o hi /\ qt lo o hi) (fun od lo res hi => match od with
+                    | Some cdr => fst res = x :: acc' /\ snd res = Some cdr
+                    | None => False end) IHv2)].
+                { intros lo res hi _ (od & mid & [Hqv Hqt] & Hk & L1 & L2) Hs Hps lo0 Hseq Hacc.
+                  destruct od as [cdr|]; [|contradiction]. destruct Hk as [E1 E2]. rewrite E1, E2. cbn [qv qt tail_infos] in *.
+                  destruct Hqv as [Ha (R1 & R2 & R3 & R4 & R5)].
+                  split; [|split; [exact Hacc|split; [exact Hqt|exists lo, mid; split; [exact Ha|repeat split; assumption]]]].
+                  eapply seqb_snoc; [exact Hseq| | |].
+                  - eapply pos_le_trans; [exact Hs|exact R3].
+                  - exact R4.
+                  - eapply pos_le_trans; [exact R5|exact L2]. }
+                intros od. destruct od as [cdr|]; [|apply Jd_err].
+                apply Jd_after; [apply T_ws| |].
+                { intros lo lo' res hi _ H. exact H. }
+                intros o2. destruct o2 as [c2|]; [|apply Jd_err]. destruct (c2 =? t); [|apply Jd_err].
+                apply Jd_ret. intros lo. cbn [fst snd]. auto.
+            - apply Jd_after; [apply T_symbol_suffix|exact Hmono|]. intros name.
+              apply Jd_after_pos. intros e.
+              eapply Jd_weaken; [|apply IHl].
+              intros lo res hi L Hq -> He Hs Hps lo0 Hseq Hacc. apply (Hq lo0).
+              + rewrite map_snoc. eapply seqb_snoc; [exact Hseq| | |]; cbn [prim_datum dinfo root_start root_end info_span mk_span sp_start sp_end].
+                * apply pos_le_refl.
+                * exact Hs.
+                * apply pos_le_refl.
+              + apply Forall_app. split; [exact Hacc|repeat constructor]. }
+          eapply Jd_weaken; [|apply (Jd_bind _ _ (fun lo o hi => qv lo o hi /\ qt lo o hi) (fun od lo res hi => match od with
+                | Some d => qlt (acc ++ [d]) lo res hi
+                | None => False end) IHv2)].
+          { intros lo res hi _ (od & mid & [Hqv Hqt] & Hk & L1 & L2) lo0 Hseq Hacc.
+            destruct od as [d|]; [|contradiction]. cbn [qv qt] in *.
+            destruct (acc_step lo0 lo mid acc d Hseq Hacc Hqv Hqt) as [A B]. apply (Hk lo0); assumption. }
+          intros od. destruct od as [d|]; [apply IHl|apply Jd_err].
+        + apply Jd_after; [apply T_ws|apply mono_qvect|]. intros o. destruct o as [c|]; [|apply Jd_err].
+          destruct (is_closer c).
+          { destruct (negb (c =? t)); [apply Jd_err|]. apply Jd_ret. intros lo lo0 Hs Ht. auto. }
+          eapply Jd_weaken; [|apply (Jd_bind _ _ (fun lo o hi => qv lo o hi /\ qt lo o hi) (fun od lo res hi => match od with
+                | Some d => qvect (acc ++ [d]) lo res hi
+                | None => False end) IHv2)].
+          { intros lo res hi _ (od & mid & [Hqv Hqt] & Hk & L1 & L2) lo0 Hseq Hacc.
+            destruct od as [d|]; [|contradiction]. cbn [qv qt] in *.
+            destruct (acc_step lo0 lo mid acc d Hseq Hacc Hqv Hqt) as [A B]. apply (Hk lo0); assumption. }
+          intros od. destruct od as [d|]; [apply IHvec|apply Jd_err].
+    Qed.
   End Main.
 End Spans.
 
@@ -519,5 +824,19 @@ Proof.
     + eapply all_spans_impl; [|exact Ha]. intros sp [->|(A & B & C & D & F)]; [left; reflexivity|right].
       split; [apply prefix_pos_in_bounds; exact A|]. split; [apply prefix_pos_in_bounds; exact B|exact D].
     + destruct Hr as (A & B & C & D & F). repeat split; auto. apply pos_le_refl.
+  - unfold liftR, peek_error in E. destruct (r_peek_position (rd s1)). cbn in E. discriminate.
+Qed.
+
+(* nesting and sibling order at the entry point *)
+Theorem datum_from_trait_tight ro alpha fast std_parse k inp d :
+  datum_from_trait ro alpha fast std_parse k inp = POk d -> tight (dinfo d).
+Proof.
+  intros E. unfold datum_from_trait in E. set (W := bytes_in inp). set (fuel := fuel_for inp) in *.
+  pose proof (proj1 (datums_tight W ro alpha fast std_parse fuel) (init_state k inp) (inv_init W k inp eq_refl)) as H.
+  unfold expect_datum in E. rewrite !pbind_unfold in E.
+  destruct (next_datum ro alpha fast std_parse fuel (init_state k inp)) as [[o|e] s1]; [|cbn in E; discriminate].
+  destruct H as (Hi & L & Hq). destruct o as [d0|].
+  - cbn [pret] in E. rewrite pbind_unfold in E.
+    destruct (expect_end_p fuel s1) as [[u|e] s2]; cbn [fst pret] in E; [|discriminate]. inversion E; subst d0. exact Hq.
   - unfold liftR, peek_error in E. destruct (r_peek_position (rd s1)). cbn in E. discriminate.
 Qed.
